@@ -127,6 +127,18 @@ class Enum(T):
         return "Enum%r" % (tuple(self.values),)
 
 
+class Lit(T):
+    """a fixed literal value (e.g. the concrete name of a metric attribute)"""
+
+    kind = "lit"
+
+    def __init__(self, value):
+        self.value = value
+
+    def __repr__(self):
+        return "Lit(%r)" % (self.value,)
+
+
 class Opt(T):
     kind = "opt"
 
@@ -326,3 +338,15 @@ def _struct(v, depth=0):
 def unchanged(a, b):
     """frame clause: the two object graphs are structurally equal"""
     return _struct(a) == _struct(b)
+
+
+def forall_keys_kept(new, old, removed_key):
+    """frame of a map deletion: every key other than ``removed_key`` keeps presence and value"""
+    for k in set(old) | set(new):
+        if k == removed_key:
+            continue
+        if (k in old) != (k in new):
+            return False
+        if k in old and _struct(old[k]) != _struct(new[k]):
+            return False
+    return True
